@@ -449,6 +449,26 @@ func c35mux(c *core.Ctx, fn *ssa.Function) {
 			if ci, ok := in.(ssa.CallInstruction); ok && ci.Common().IsInvoke() && ci.Common().Method.Name() == "Close" && ci.Common().Value == ssa.Value(conn) {
 				return true
 			}
+			// a private helper that is handed the connection and closes it on every path
+			if call, ok := in.(*ssa.Call); ok {
+				if g := call.Common().StaticCallee(); g != nil && len(g.Blocks) > 0 && g.Pkg == fn.Pkg && !ast.IsExported(g.Name()) {
+					for k, a := range call.Common().Args {
+						if an.Unwrap(a) != ssa.Value(conn) || k >= len(g.Params) {
+							continue
+						}
+						p := g.Params[k]
+						open := an.Ungated(an.CutSpec{Fn: g, NoLift: true,
+							GateInstr: func(x ssa.Instruction) bool {
+								ci, ok := x.(ssa.CallInstruction)
+								return ok && ci.Common().IsInvoke() && ci.Common().Method.Name() == "Close" && ci.Common().Value == ssa.Value(p)
+							},
+							Sink: func(x ssa.Instruction) bool { _, ok := x.(*ssa.Return); return ok }})
+						if len(open) == 0 {
+							return true
+						}
+					}
+				}
+			}
 			return false
 		},
 		Sink: func(in ssa.Instruction) bool { _, ok := in.(*ssa.Return); return ok }})
